@@ -12,6 +12,7 @@ import (
 
 	"github.com/tormoder/fit"
 	"verifharness/canon"
+	"verifharness/strfacts"
 )
 
 // Facts extracted from the current tree (by reflection / behaviour, never by source text).
@@ -333,6 +334,123 @@ func writeIfChanged(path, content string) (bool, error) {
 	return true, os.WriteFile(path, []byte(content), 0o644)
 }
 
+// renderStringsLean: FitModel/Gen/Strings.lean from the extracted constants and String shapes.
+func renderStringsLean() (map[string]string, error) {
+	types, err := strfacts.ParseTypes("/repo/types.go", "/repo/types_man.go")
+	if err != nil {
+		return nil, err
+	}
+	shapes, err := strfacts.ParseShapes("/repo/types_string.go", "/repo/types_man.go")
+	if err != nil {
+		return nil, err
+	}
+	const nChunks = 12
+	weights := make([]int, nChunks)
+	chunks := make([][]string, nChunks)
+	var b bytes.Buffer
+	b.WriteString("-- GENERATED by `harness facts` from /repo/types.go, types_man.go, types_string.go. DO NOT EDIT.\n")
+	b.WriteString("import FitModel.Strings\nnamespace Fit.Gen.Str\nopen Fit.Str\n\n")
+	var names []string
+	for _, t := range types {
+		sh, ok := shapes[t.Name]
+		if !ok {
+			return nil, fmt.Errorf("type %s has no generated String method", t.Name)
+		}
+		id := "t_" + t.Name
+		names = append(names, id)
+		// greedy balancing of the kernel-evaluation work over the chunk files
+		w := 0
+		for _, c := range t.Consts {
+			w += len(c.Name)
+		}
+		w = w*len(t.Consts) + 50
+		best := 0
+		for k := range weights {
+			if weights[k] < weights[best] {
+				best = k
+			}
+		}
+		weights[best] += w
+		chunks[best] = append(chunks[best], id)
+		// name constants can be long: hoist them into their own definitions
+		var shape string
+		hoist := func(tag string, s string) string {
+			nm := id + "_" + tag
+			fmt.Fprintf(&b, "def %s : Str := %s\n", nm, strfacts.LeanCodes(s))
+			return nm
+		}
+		idxs := func(a []int) string {
+			p := make([]string, len(a))
+			for i, x := range a {
+				p[i] = fmt.Sprint(x)
+			}
+			return "[" + strings.Join(p, ", ") + "]"
+		}
+		switch sh.Kind {
+		case "runs":
+			var rs []string
+			for i, r := range sh.Runs {
+				rs = append(rs, fmt.Sprintf("⟨%d, %d, %d, %s, %s⟩", r.Lo, r.Hi, r.Off, hoist(fmt.Sprintf("n%d", i), r.Name), idxs(r.Index)))
+			}
+			shape = ".runs [" + strings.Join(rs, ", ") + "]"
+		case "single":
+			shape = fmt.Sprintf(".single %d %s %s", sh.Single.Off, hoist("n", sh.Single.Name), idxs(sh.Single.Index))
+		case "map":
+			var es []string
+			for _, e := range sh.Map {
+				es = append(es, fmt.Sprintf("(%d, %s)", e.Key, strfacts.LeanCodes(e.Str)))
+			}
+			shape = ".map [" + strings.Join(es, ", ") + "]"
+		}
+		var cs []string
+		for _, c := range t.Consts {
+			cs = append(cs, fmt.Sprintf("(%s, %d)", strfacts.LeanCodes(c.Name), c.Value))
+		}
+		fmt.Fprintf(&b, "def %s : Table := {\n  tname := %s, bits := %d, signed := %s, keepPrefix := %s,\n  consts := [%s],\n  shape := %s }\n\n",
+			id, strfacts.LeanCodes(t.Name), t.Bits, leanBool(t.Signed), leanBool(t.Manual), strings.Join(cs, ", "), shape)
+	}
+	files := map[string]string{}
+	var chunkNames []string
+	for k, c := range chunks {
+		fmt.Fprintf(&b, "def chunk%d : List Table := [%s]\n", k, strings.Join(c, ", "))
+		chunkNames = append(chunkNames, fmt.Sprintf("chunk%d", k))
+		files[fmt.Sprintf("StrOK%d.lean", k)] = fmt.Sprintf("-- GENERATED. DO NOT EDIT.\nimport FitModel.Gen.Strings\nnamespace Fit.Gen.Str\nopen Fit.Str\n\n/-- kernel evaluation of the table check for this chunk of the generated string tables -/\ntheorem chunk%d_ok : chunk%d.all tableOK = true := by decide +kernel\n\nend Fit.Gen.Str\n", k, k)
+	}
+	fmt.Fprintf(&b, "\n/-- all generated types, grouped into chunks (the grouping only balances checking time) -/\ndef tables : List Table := %s\n\n", strings.Join(chunkNames, " ++ "))
+	fmt.Fprintf(&b, "/-- the types in source order, for reference -/\ndef typeNames : List String := [%s]\n\nend Fit.Gen.Str\n", func() string {
+		q := make([]string, len(types))
+		for i, t := range types {
+			q[i] = fmt.Sprintf("%q", t.Name)
+		}
+		return strings.Join(q, ", ")
+	}())
+	files["Strings.lean"] = b.String()
+	// the combination
+	var c bytes.Buffer
+	c.WriteString("-- GENERATED. DO NOT EDIT.\nimport FitModel.Gen.Strings\n")
+	for k := range chunks {
+		fmt.Fprintf(&c, "import FitModel.Gen.StrOK%d\n", k)
+	}
+	c.WriteString("namespace Fit.Gen.Str\nopen Fit.Str\n\ntheorem tables_ok : tables.all tableOK = true := by\n  simp only [tables, List.all_append, Bool.and_eq_true]\n  exact ⟨")
+	for k := range chunks {
+		c.WriteString(strings.Repeat("⟨", 0))
+		_ = k
+	}
+	// left-nested conjunction ((((c0 ∧ c1) ∧ c2) ...) ∧ cN)
+	expr := "chunk0_ok"
+	for k := 1; k < len(chunks); k++ {
+		expr = fmt.Sprintf("⟨%s, chunk%d_ok⟩", expr, k)
+	}
+	c.Reset()
+	c.WriteString("-- GENERATED. DO NOT EDIT.\nimport FitModel.Gen.Strings\n")
+	for k := range chunks {
+		fmt.Fprintf(&c, "import FitModel.Gen.StrOK%d\n", k)
+	}
+	fmt.Fprintf(&c, "namespace Fit.Gen.Str\nopen Fit.Str\n\ntheorem tables_ok : tables.all tableOK = true := by\n  simp only [tables, List.all_append, Bool.and_eq_true]\n  exact %s\n\nend Fit.Gen.Str\n", expr)
+	files["StrOK.lean"] = c.String()
+	return files, nil
+}
+
 func cmdFacts(args []string) int {
 	leanDir := "/verif/lean/FitModel/Gen"
 	out := "/verif/build/facts.json"
@@ -358,5 +476,16 @@ func cmdFacts(args []string) int {
 		return 2
 	}
 	fmt.Printf("facts: %d messages, %d containers, profile.lean changed=%v\n", len(f.Msgs), len(f.Containers), ch)
+	sl, err := renderStringsLean()
+	if err != nil {
+		fmt.Fprintln(os.Stderr, "facts (string tables):", err)
+		return 2
+	}
+	for name, content := range sl {
+		if _, err := writeIfChanged(filepath.Join(leanDir, name), content); err != nil {
+			fmt.Fprintln(os.Stderr, "facts:", err)
+			return 2
+		}
+	}
 	return 0
 }
